@@ -500,9 +500,7 @@ impl EncodingVersion for EncodingVersion2 {
         deserializer: &mut XTypesDeserializer<'a, E, Self>,
         dynamic_data: &mut DynamicData,
     ) -> XTypesResult<()> {
-        let _dheader = deserializer.deserialize_primitive_type::<u32>()?;
-        deserializer.deserialize_members(dynamic_data)?;
-        Ok(())
+        deserializer.deserialize_delimited(|d| d.deserialize_members(dynamic_data))
     }
 
     /// Member of mutable aggregated type (structure, union), version 2 encoding
@@ -547,32 +545,32 @@ impl EncodingVersion for EncodingVersion2 {
         deserializer: &mut XTypesDeserializer<'a, E, Self>,
         dynamic_data: &mut DynamicData,
     ) -> XTypesResult<()> {
-        let _dheader = deserializer.deserialize_primitive_type::<u32>();
+        deserializer.deserialize_delimited(|deserializer| {
+            let dynamic_type = dynamic_data.r#type();
+            // Deserialize the discriminator
+            let disc_member = dynamic_type.get_member_by_index(0)?;
+            Self::deserialize_mmember(deserializer, disc_member, dynamic_data)?;
 
-        let dynamic_type = dynamic_data.r#type();
-        // Deserialize the discriminator
-        let disc_member = dynamic_type.get_member_by_index(0)?;
-        Self::deserialize_mmember(deserializer, disc_member, dynamic_data)?;
+            // The discriminator value represents the id of a member
+            let disc_id = get_discriminator_id_as_i32(dynamic_data)?;
 
-        // The discriminator value represents the id of a member
-        let disc_id = get_discriminator_id_as_i32(dynamic_data)?;
-
-        let mut default_member = None;
-        for member_index in 0..dynamic_type.get_member_count() {
-            let member = dynamic_type.get_member_by_index(member_index)?;
-            // Deserialize the member based on its discriminator
-            if member.descriptor.label.contains(&disc_id) {
+            let mut default_member = None;
+            for member_index in 0..dynamic_type.get_member_count() {
+                let member = dynamic_type.get_member_by_index(member_index)?;
+                // Deserialize the member based on its discriminator
+                if member.descriptor.label.contains(&disc_id) {
+                    return Self::deserialize_mmember(deserializer, member, dynamic_data);
+                }
+                if member.descriptor.is_default_label {
+                    default_member = Some(member);
+                }
+            }
+            if let Some(member) = default_member {
                 return Self::deserialize_mmember(deserializer, member, dynamic_data);
             }
-            if member.descriptor.is_default_label {
-                default_member = Some(member);
-            }
-        }
-        if let Some(member) = default_member {
-            return Self::deserialize_mmember(deserializer, member, dynamic_data);
-        }
 
-        Err(XTypesError::InvalidData)
+            Err(XTypesError::InvalidData)
+        })
     }
 
     /// Extensibility APPENDABLE (Collection or Aggregated types), version 2
@@ -585,8 +583,7 @@ impl EncodingVersion for EncodingVersion2 {
         deserializer: &mut XTypesDeserializer<'a, E, Self>,
         dynamic_data: &mut DynamicData,
     ) -> XTypesResult<()> {
-        let _dheader = deserializer.deserialize_primitive_type::<u32>();
-        deserializer.deserialize_fstruct_type(dynamic_data)
+        deserializer.deserialize_delimited(|d| d.deserialize_fstruct_type(dynamic_data))
     }
 
     /// (30) XCDR[2] << {O : APPENDABLE_TYPE} = XCDR << { DHEADER(O) } << { O : AsFinal(O.type) }
@@ -682,6 +679,23 @@ fn is_element_type_kind_primitive(member: &DynamicTypeMember) -> XTypesResult<bo
 }
 
 impl<'a, E: EndiannessRead, V: EncodingVersion> XTypesDeserializer<'a, E, V> {
+    /// Reads a DHEADER, runs `f` on the delimited object and leaves the position at the end of
+    /// the object as announced by the DHEADER, whatever part of it `f` consumed (members are
+    /// looked up by id from the start of the object, members appended by a newer version of the
+    /// type are skipped).
+    fn deserialize_delimited<R>(
+        &mut self,
+        f: impl FnOnce(&mut Self) -> XTypesResult<R>,
+    ) -> XTypesResult<R> {
+        let dheader = self.deserialize_primitive_type::<u32>()? as usize;
+        let end = self.reader.pos.saturating_add(dheader);
+        let result = f(self);
+        if end <= self.reader.buffer.len() {
+            self.reader.pos = end;
+        }
+        result
+    }
+
     fn new(buffer: &'a [u8], encoding_version: V, endianness: E) -> Self {
         Self {
             reader: Reader { buffer, pos: 0 },
